@@ -167,12 +167,12 @@ def validate(ctx, traces, what):
     return [r for r in rej if r["tid"] >= 0]
 
 
-def run(ctx, convex_recs, voxel_recs):
+def run(ctx, convex_recs, voxel_recs, must=()):
     quick = ctx.tier == "quick"
     rnd = random.Random(ctx.seed + 20)
     convex_recs = sorted(convex_recs, key=lambda r: -len(r["facets"]))
     pick = convex_recs[:6] + rnd.sample(convex_recs[6:], min(len(convex_recs) - 6, 10 if quick else 200))
-    vox = rnd.sample(voxel_recs, min(len(voxel_recs), 6 if quick else 100))
+    vox = list(must) + rnd.sample(voxel_recs, min(len(voxel_recs), 6 if quick else 100))
     from fractions import Fraction as F
     extra = [Placement(s=1000000, t=(3, -7, 11), name="mega"),
              Placement(s=F(1, 1000000), q=(1, 2, 2, 0), t=(F(1, 500000), 0, F(-3, 1000000)), name="micro_rot9")]
